@@ -132,6 +132,7 @@ func (s *State) clone() *State {
 
 type WriteSet struct {
 	comps  map[string]bool
+	direct map[string]bool // components written by the region itself (stores, contract frames naming locations, contracted calls handed protected objects) rather than only havoced by unknown code
 	locals map[localKey]bool
 	all    bool
 	unprot map[string]bool
@@ -139,7 +140,7 @@ type WriteSet struct {
 }
 
 func newWriteSet() *WriteSet {
-	return &WriteSet{comps: map[string]bool{}, locals: map[localKey]bool{}, unprot: map[string]bool{}, ltaint: map[string]bool{}}
+	return &WriteSet{comps: map[string]bool{}, direct: map[string]bool{}, locals: map[localKey]bool{}, unprot: map[string]bool{}, ltaint: map[string]bool{}}
 }
 
 type Executor struct {
@@ -228,6 +229,9 @@ func (x *Executor) heapSet(st *State, comp, term string) {
 	sortS := x.u.heapSorts[comp]
 	st.heap[comp] = x.u.define(comp+"@", sortS, term)
 	x.recordWrite(comp)
+	for _, w := range x.wstack {
+		w.direct[comp] = true
+	}
 }
 
 func (x *Executor) heapHavoc(st *State, comp string) string {
